@@ -178,11 +178,13 @@ func makeHTTPServerWithHeaderLimit(s *http.Server, group []*SiteConfig) *http.Se
 	}
 
 	if min > 0 {
-		// net/http reads up to MaxHeaderBytes plus 4096 bytes of slack:
-		// the largest sizes the limits directive accepts would wrap that
-		// sum around, and every request would be refused with 431
-		if min > math.MaxInt64-4096 {
-			min = math.MaxInt64 - 4096
+		// net/http adds some slack to MaxHeaderBytes (4096 bytes for
+		// HTTP/1, and for HTTP/2 it advertises the sum as a 32-bit
+		// value): sizes near those limits would wrap the sum around,
+		// and every request would be refused (431; over HTTP/2 a
+		// "limits 4GB" would leave 320 bytes for the header list)
+		if min > math.MaxInt32-4096 {
+			min = math.MaxInt32 - 4096
 		}
 		s.MaxHeaderBytes = int(min)
 	}
